@@ -156,7 +156,7 @@ def tasks(tier, seed):
     for cone in (["orthant2"] if tier == "quick" else ["orthant2", "theta60", "theta120"]):
         ts.append({"id": f"run[VOGP_AD,{cone}]", "fn": "run_task",
                    "args": {"cls_name": "VOGP_AD", "ctype": None, "cone": cone, "W": cs[cone].tolist(), "N": 1,
-                            "steps": 3 if tier == "quick" else 4, "batch": 1, "prop": "C18", "tier": tier}, "weight": 500})
+                            "steps": 3, "batch": 1, "prop": "C18", "tier": tier}, "weight": 500})
     return ts
 
 
@@ -168,7 +168,7 @@ def meta(tier):
             "functions": src_info(c.__init__, c.refine_design, c.generate_child_designs, c.should_refine_design,
                                   va.evaluate_refine, va.epsiloncovering, va.run_one_step),
             "bounds": {"cell level": "d = 1..3, arbitrary symbolic cell bounds (any depth by induction)",
-                       "run level": "d = 1, max depth 3, 3 steps (4 thorough) from the root, every refine/sample/discard choice"},
+                       "run level": "d = 1, max depth 3, 3 steps from the root (4 steps exhausted the 90 min budget), every refine/sample/discard choice; the thorough tier adds two cones"},
             "stubs": ["stub posterior, recording problem, free-oracle region predicates, β any positive scale",
                       "should_refine_design nondeterministic below the maximum depth (the real depth gate is kept)"],
             "assumptions": ["floats are encoded as exact reals (midpoints of dyadic cells are exact in binary64 anyway)",
